@@ -59,3 +59,25 @@ pub fn random(seed: u64) -> String {
     }
     s
 }
+
+/// a random grammar with more rules / longer productions (merging and re-processing of states needs them)
+pub fn random_larger(seed: u64) -> String {
+    let mut r = Rng(seed.wrapping_mul(0xD1B54A32D192ED03) | 1);
+    let nrules = 2 + r.below(4);
+    let toks = ["'a'", "'b'", "'c'", "'d'"];
+    let mut s = String::from("%start R0\n%%\n");
+    for i in 0..nrules {
+        s.push_str(&format!("R{}: ", i));
+        let np = 1 + r.below(4);
+        for p in 0..np {
+            if p > 0 { s.push_str(" | "); }
+            let len = r.below(5);
+            for _ in 0..len {
+                if r.below(5) < 3 { s.push_str(toks[r.below(4)]); } else { s.push_str(&format!("R{}", r.below(nrules))); }
+                s.push(' ');
+            }
+        }
+        s.push_str(";\n");
+    }
+    s
+}
